@@ -47,6 +47,11 @@ def families(quick):
     F["rweight_neg"] = sky.SkyConfig(nref=2, nunk=2, zcells="{2, 4}", weights="{1, 2}", slots="{0, 1, 3, 4, 6, 8, 9}", rmin=(2.5, 7.5), rmax=(12.5, 22.5),
                                      rweight=-0.8, resolution=50)
     F["rweight_pos"] = sky.SkyConfig(nref=2, nunk=2, zcells="{2}", weights="{1}", rmin=(2.5,), rmax=(22.5,), rweight=1.0, resolution=7)
+    # scales listed in descending order together with separation weighting
+    F["rweight_descending"] = sky.SkyConfig(nref=2, nunk=2, zcells="{2}", weights="{1}", rmin=(7.5, 2.5), rmax=(22.5, 12.5), rweight=-1.0, resolution=20)
+    # the FIRST catalog (binned reference) is the smaller one
+    F["unknown_larger"] = sky.SkyConfig(nref=2, nunk=3, zcells="{2, 4}", weights="{1}", slots=("{0, 1, 3, 4, 6, 8, 9}" if quick else "0..9"),
+                                        rmin=(2.5,), rmax=(12.5,))
     F["three_centres"] = sky.SkyConfig(nref=3, nunk=3, zcells="{2}", weights="{1}", centres=(1, 5, 9),
                                        slots=("{0, 1, 4, 6, 9, 10}" if quick else "{0, 1, 2, 4, 5, 6, 8, 9, 10}"), rmin=(2.5,), rmax=(17.5,))
     if not quick:
